@@ -12,7 +12,7 @@ Definition no_prim (f : string) (args : list val) (w : unit) : outcome Empty_set
 
 (* helpers.rs: next_capacity::<T>(capacity); None = it panics (or is outside the IR) *)
 Definition ncap_of (cfg : tcfg) (c : Z) : option Z :=
-  match eval_fn cfg gen_funs no_prim FUEL helpers__next_capacity_ast [VInt c] tt with
+  match eval_fn cfg gen_funs (direct no_prim) FUEL helpers__next_capacity_ast [VInt c] tt with
   | (Norm (VInt r), _) => Some r
   | _ => None
   end.
